@@ -87,6 +87,11 @@ CHECKS = {
          "Open and closed polylines and two-subpath paths x all dash arrays of length 1-3 over {2,5,11,40,200} and length 4/6 over {3,7} x offsets of both signs up to +-10000.5 x caps/joins/widths: the pieces emitted by dash_path equal the on-intervals of M-DASH vertex for vertex (joined across a closed subpath's seam, complete closed outline when fully on), pixels match M-REGION of those pieces at 0.75 px, non-positive totals paint nothing.",
          "Cases with a dash boundary within 2e-3 of a vertex are not asserted (piece structure ambiguous there); the overlapping-pieces rasteriser finding is listed.",
          "DESIGN.md section 4, C09"),
+
+ "C11": ("bounded exhaustive differential exploration (bit-exact) of transform equivalences, plus the step oracle's transform-preservation clause",
+         "fill(p) under each of 11 transforms vs fill(Path::transform(p,T)) under the identity for triangles over a 3x3 off-grid set, curves, arcs, even-odd ring, no-MoveTo path x 2 aa x 2 rules; stroke under T vs NonZero fill of the transformed stroke_to_path outline; CTM/source-transform cancellation for exactly invertible T (images pad/repeat x filters, raw gradients); singular T leaves the target unchanged for 8 calls x 4 contexts; push_clip_rect / mask / copy_surface / blend_surface ignore T; clear and pop_layer leave get_transform() bit-identical.",
+         "Source positioning under general T is decided by C12/C13 (which enumerate CTMs); mask() under a singular T is not asserted (the property's two clauses contradict there).",
+         "DESIGN.md section 4, C11"),
 }
 NOT_YET = "check not built yet in this round (design in DESIGN.md section 4); will be claimed once its explorer exists"
 
